@@ -181,28 +181,30 @@ class MapString(Contract):
     id = "C12.MapStringTransformation.apply_string_value"
     target = f"{TV}:MapStringTransformation.apply_string_value"
     props = ("C12",)
-    cases = ("single", "list", "missing")
+    cases = tuple((c, cls) for c in ("single", "list", "missing") for cls in ("SigmaString", "SigmaCasedString"))
 
     def setup(self, E):
-        summarise_ctors(E)
+        summarise_ctors(E, names=("SigmaString", "SigmaCasedString", "SigmaNumber", "SigmaBool", "SigmaNull", "SigmaRegularExpression"))
 
     def args(self, I, case):
+        case, vcls = case
         idx = I.E.index
         key = {"single": "k1", "list": "k2", "missing": "zz"}[case]
         m1, m2a, m2b = I.fresh("m1", "str"), I.fresh("m2a", "str"), I.fresh("m2b", "str")
-        val = SObj(idx.lookup(f"{TY}:SigmaString"), {"__str__": NativeFn("__str__", lambda I2, a, k: key)}, lazy=True)
+        val = SObj(idx.lookup(f"{TY}:{vcls}"), {"__str__": NativeFn("__str__", lambda I2, a, k: key)}, lazy=True)
         me = SObj(idx.lookup(f"{TV}:MapStringTransformation"), {"mapping": {"k1": m1, "k2": [m2a, m2b]}}, lazy=True)
-        return {"self": me, "args": [I.fresh("field", "str"), val], "m": (m1, m2a, m2b), "case": case}
+        return {"self": me, "args": [I.fresh("field", "str"), val], "m": (m1, m2a, m2b), "case": case, "vcls": vcls}
 
     def post(self, I, inp, r):
         m1, m2a, m2b = inp["m"]
+        want = "New" + inp["vcls"]
         if inp["case"] == "missing":
             I.ctx.require(r is None, "not in the mapping: left alone")
         elif inp["case"] == "single":
-            I.ctx.require(isinstance(r, SObj) and r.cls == "NewSigmaString" and r.fields["a"][0] is m1, "the mapped string")
+            I.ctx.require(isinstance(r, SObj) and r.cls == want and r.fields["a"][0] is m1, f"the mapped string, as a {inp['vcls']} (the class of the value it replaces)")
         else:
             r = I.force(r) if not isinstance(r, list) else r
-            I.ctx.require(isinstance(r, list) and len(r) == 2 and all(isinstance(x, SObj) and x.cls == "NewSigmaString" for x in r) and r[0].fields["a"][0] is m2a and r[1].fields["a"][0] is m2b, "one string per mapped entry, in order")
+            I.ctx.require(isinstance(r, list) and len(r) == 2 and all(isinstance(x, SObj) and x.cls == want for x in r) and r[0].fields["a"][0] is m2a and r[1].fields["a"][0] is m2b, f"one {inp['vcls']} per mapped entry, in order")
 
     def frame_ok(self, I, inp, obj, name):
         return False
